@@ -134,7 +134,7 @@ func genCase(r *hx.Rand, p profile) []*big.Int {
 		}
 		return OOk
 	}
-	if p.dual && r.Chance(1, 5) {
+	if p.dual && r.Chance(1, 3) {
 		// dual-stack waiters: several requests wait on one interface while its two families are filled by separate calls,
 		// one of them only partly (each waiter has looked at the same idle IPv4 address before it parked)
 		c.On4, c.On6 = true, true
